@@ -3,6 +3,8 @@ import Mathlib.Tactic.Ring
 import Mathlib.Tactic.Linarith
 import Mathlib.Algebra.Order.Field.Rat
 import Mathlib.Algebra.Order.AbsoluteValue.Basic
+import Mathlib.Analysis.Matrix.PosDef
+import Mathlib.Analysis.Matrix.Spectrum
 /-!
 # C01 — helper lemmas: numpy closeness as an absolute-value inequality, monotonicity in `atol`,
 eigenvalue form of the PSD verdict, origin objects
@@ -236,5 +238,149 @@ theorem originMp_sumTp (n m : Nat) (t : List C) (atol : Rat) (hn : 0 < n) (hm : 
   simp only [Bool.false_eq_true, ↓reduceIte, isTp]
   rw [sumHss_origin n m hn hm]
   exact originGate_tp n atol hn ha
+
+/-! ## scalar matrices (origin objects), ONH0 traces, branch relation helpers -/
+/-- `c·1` as a model matrix (origin objects: `I/d`, `I/m`, Choi of the depolarising map `1/d`, …) -/
+def scalarMat (d : Nat) (c : Rat) : CMat :=
+  ⟨d, (List.range (d * d)).map fun k => if k / d = k % d then (c, 0) else (0, 0)⟩
+
+theorem mapM_some_map {α β : Type} (l : List α) (h : α → Option β) (g : α → β)
+    (H : ∀ a ∈ l, h a = some (g a)) : l.mapM h = some (l.map g) := by
+  induction l with
+  | nil => rfl
+  | cons a l ih =>
+    rw [List.mapM_cons, H a (by simp), ih (fun b hb => H b (by simp [hb]))]
+    rfl
+
+theorem mem_zip_self {α : Type} (l : List α) (a b : α) (h : (a, b) ∈ l.zip l) : a = b := by
+  induction l with
+  | nil => simp at h
+  | cons x l ih =>
+    simp only [List.zip_cons_cons, List.mem_cons, Prod.mk.injEq] at h
+    rcases h with ⟨h1, h2⟩ | h
+    · rw [h1, h2]
+    · exact ih h
+
+theorem allSome_of_all (l : List (Option Bool)) (H : ∀ x ∈ l, x = some true) : allSome l = some true := by
+  unfold allSome
+  rw [mapM_some_map l id (fun _ => true) (by intro a ha; rw [H a ha]; rfl)]
+  simp
+
+theorem scalarMat_adjoint (d : Nat) (c : Rat) (hd : 0 < d) :
+    (scalarMat d c).adjoint = some (scalarMat d c).e := by
+  unfold CMat.adjoint scalarMat
+  dsimp only
+  apply mapM_some_map
+  intro k hk
+  rw [List.mem_range] at hk
+  have hq : k / d < d := Nat.div_lt_of_lt_mul (by simpa [Nat.mul_comm] using hk)
+  have hr : k % d < d := Nat.mod_lt _ hd
+  have hidx : k % d * d + k / d < d * d := by
+    calc k % d * d + k / d < k % d * d + d := by omega
+      _ = (k % d + 1) * d := by ring
+      _ ≤ d * d := Nat.mul_le_mul_right _ hr
+  rw [List.getElem?_map, List.getElem?_range hidx]
+  have e1 : (k % d * d + k / d) / d = k % d := by
+    rw [Nat.add_comm, Nat.add_mul_div_right _ _ hd, Nat.div_eq_of_lt hq, Nat.zero_add]
+  have e2 : (k % d * d + k / d) % d = k / d := by
+    rw [Nat.add_comm, Nat.add_mul_mod_self_right, Nat.mod_eq_of_lt hq]
+  simp only [Option.map_some, e1, e2]
+  by_cases h : k / d = k % d
+  · simp [h]
+  · have h' : ¬ k % d = k / d := fun x => h x.symm
+    simp [h, h']
+
+theorem isHermitian_scalar (d : Nat) (c atol : Rat) (hd : 0 < d) (ha : 0 ≤ atol) :
+    isHermitian (scalarMat d c) atol = some true := by
+  have hok : (scalarMat d c).ok = true := by simp [CMat.ok, scalarMat]
+  have hr : mutil_is_hermitian_rtol = 0 := by decide
+  unfold isHermitian
+  simp only [hok, Bool.not_true, Bool.false_eq_true, ↓reduceIte, scalarMat_adjoint d c hd,
+    Option.bind_eq_bind, Option.bind_some]
+  show allSome _ = some true
+  apply allSome_of_all
+  intro x hx
+  rw [List.mem_map] at hx
+  obtain ⟨⟨a, b⟩, hab, rfl⟩ := hx
+  have : a = b := mem_zip_self _ a b hab
+  subst this
+  simp [isCloseCC, hr, ha, mul_self_nonneg]
+
+
+/-- traces `Tr B_α` of an orthonormal Hermitian identity-first basis: `(τ, 0, …, 0)`, `τ = Tr B₀` (`= √d`) -/
+def onh0Traces (τ : Rat) (n : Nat) : List C := (τ, 0) :: List.replicate (n - 1) (0, 0)
+
+theorem foldl_zip_zeros1 (l : List Rat) (k : Nat) (acc : Rat) :
+    (l.zip (List.replicate k ((0, 0) : C))).foldl (fun acc (p : Rat × C) => acc + p.1 * p.2.1) acc = acc := by
+  induction l generalizing k acc with
+  | nil => simp
+  | cons x l ih =>
+    cases k with
+    | zero => simp
+    | succ k => simp [List.replicate_succ, ih]
+
+theorem foldl_zip_zeros2 (l : List Rat) (k : Nat) (acc : Rat) :
+    (l.zip (List.replicate k ((0, 0) : C))).foldl (fun acc (p : Rat × C) => acc + p.1 * p.2.2) acc = acc := by
+  induction l generalizing k acc with
+  | nil => simp
+  | cons x l ih =>
+    cases k with
+    | zero => simp
+    | succ k => simp [List.replicate_succ, ih]
+
+theorem closeCC_scaled (x δ τ a : Rat) (hτ : 0 < τ) :
+    isCloseCC (0 + x * τ, 0) (τ * δ, 0) (τ * a) 0 = some (isClose x δ a 0) := by
+  unfold isCloseCC
+  simp only [↓reduceIte, sub_self, mul_zero, add_zero, zero_add, Option.some.injEq]
+  rw [isClose]
+  simp only [zero_mul, add_zero, rabs_eq_abs]
+  have e : (x * τ - τ * δ) * (x * τ - τ * δ) = (τ * (x - δ)) * (τ * (x - δ)) := by ring
+  rw [e]
+  by_cases ha : 0 ≤ a
+  · have hta : 0 ≤ τ * a := mul_nonneg hτ.le ha
+    have h1 : (τ * (x - δ)) * (τ * (x - δ)) ≤ τ * a * (τ * a) ↔ |x - δ| ≤ a := by
+      rw [sq_le_sq_iff_abs_le _ _ hta, abs_mul, abs_of_pos hτ]
+      exact mul_le_mul_iff_right₀ hτ
+    simp [hta, h1]
+  · have hta : ¬ 0 ≤ τ * a := by
+      intro h; exact ha (by by_contra hc; have := mul_neg_of_pos_of_neg hτ (not_le.mp hc); linarith)
+    have h2 : ¬ |x - δ| ≤ a := fun h => ha (le_trans (abs_nonneg _) h)
+    simp [hta, h2]
+
+theorem allSome_map_some {α : Type} (l : List α) (g : α → Bool) :
+    allSome (l.map fun a => some (g a)) = some (l.all g) := by
+  unfold allSome
+  rw [mapM_some_map (l.map fun a => some (g a)) id (fun o => o.getD false) (by
+    intro o ho; rw [List.mem_map] at ho; obtain ⟨a, _, rfl⟩ := ho; rfl)]
+  simp [List.all_map, Function.comp_def]
+
+
+/-! ## eigenvalues ≥ −a ⇔ `A + a•1` positive semidefinite (Mathlib spectral theorem) -/
+section spectral
+open Matrix Unitary
+open scoped ComplexOrder
+variable {n : Type*} [Fintype n] [DecidableEq n]
+theorem shift_spectral {𝕜 : Type*} [RCLike 𝕜] {A : Matrix n n 𝕜} (hA : A.IsHermitian) (a : ℝ) :
+    A + (RCLike.ofReal a : 𝕜) • (1 : Matrix n n 𝕜) =
+      conjStarAlgAut 𝕜 _ hA.eigenvectorUnitary (diagonal (RCLike.ofReal ∘ fun i => hA.eigenvalues i + a)) := by
+  have h1 : (diagonal (RCLike.ofReal ∘ fun i => hA.eigenvalues i + a) : Matrix n n 𝕜) =
+      diagonal (RCLike.ofReal ∘ hA.eigenvalues) + (RCLike.ofReal a : 𝕜) • (1 : Matrix n n 𝕜) := by
+    ext i j
+    by_cases h : i = j
+    · subst h; simp [Matrix.smul_apply, RCLike.ofReal_add, RCLike.real_smul_eq_coe_mul]
+    · simp [h, Matrix.smul_apply]
+  rw [h1, map_add, map_smul, map_one, ← hA.spectral_theorem]
+
+theorem eigenvalues_ge_neg_iff_posSemidef {𝕜 : Type*} [RCLike 𝕜] {A : Matrix n n 𝕜} (hA : A.IsHermitian) (a : ℝ) :
+    (∀ i, -a ≤ hA.eigenvalues i) ↔ (A + (RCLike.ofReal a : 𝕜) • (1 : Matrix n n 𝕜)).PosSemidef := by
+  rw [shift_spectral hA a]
+  simp only [isUnit_coe.posSemidef_star_right_conjugate_iff, conjStarAlgAut_apply, posSemidef_diagonal_iff,
+    Function.comp_apply]
+  constructor
+  · intro h i; have := h i; exact_mod_cast (by linarith : (0:ℝ) ≤ hA.eigenvalues i + a)
+  · intro h i; have := h i; have h2 : (0:ℝ) ≤ hA.eigenvalues i + a := by exact_mod_cast this
+    linarith
+
+end spectral
 
 end QM.C01
